@@ -37,7 +37,7 @@ def mode_env(mode):
 def limit(mem_gb):
     def f():
         os.setsid()
-        b = mem_gb * (1 << 30)
+        b = max(2 * mem_gb, 16) * (1 << 30)  # address-space cap; mem_gb itself is the admission weight (expected resident size)
         resource.setrlimit(resource.RLIMIT_AS, (b, b))
     return f
 
@@ -78,7 +78,7 @@ def parse_log(txt):
     funcs |= set(re.findall(r' in function (\S.*)$', txt, re.M))
     r['functions'] = sorted(f for f in funcs if f.startswith('bnum::') or '<impl' in f and 'bnum' in f)
     r['stubs'] = sorted(set(re.findall(r'^\s*-? ?Stub: (.*)$', txt, re.M)))
-    r['oom'] = bool(re.search(r'Status: ERROR|std::bad_alloc|out of memory|Out of memory|memory exhausted', txt))
+    r['oom'] = bool(re.search(r'Status: ERROR|std::bad_alloc|out of memory|Out of memory|memory exhausted|CBMC failed|run out of memory', txt))
     r['build_error'] = bool(re.search(r'^error(\[E\d+\])?:', txt, re.M)) and r['verdict'] is None
     return r
 
@@ -297,14 +297,29 @@ def main(argv=None):
     lock = threading.Lock()
     done = []
 
+    # memory-aware admission: the address-space limits of the running jobs never add up to more than MEM_POOL GB
+    MEM_POOL = int(os.environ.get('VERIF_MEM_GB', '52'))
+    mem = {'free': MEM_POOL}
+    cv = threading.Condition()
+
     def worker(k):
         while True:
             try:
                 j = q.get_nowait()
             except queue.Empty:
                 return
+            need = min(j.h.mem_gb, MEM_POOL)
+            with cv:
+                while mem['free'] < need:
+                    cv.wait()
+                mem['free'] -= need
             wdir = os.path.join(WORK, f"kani-{prop}-{j.h.mode}-w{k}")
-            run_job(j, wdir, logdir, a.cap_scale)
+            try:
+                run_job(j, wdir, logdir, a.cap_scale)
+            finally:
+                with cv:
+                    mem['free'] += need
+                    cv.notify_all()
             if j.state == 'failed':
                 handle_failure(j, wdir, logdir, known)
             with lock:
